@@ -1,19 +1,14 @@
-int lfunc_0(void){ return 152; }
+int lfunc_0(void){ return 119; }
 void *addr_lfunc_0(void){ return (void*)lfunc_0; }
 extern int lfunc_0(void); void *l1_addr_lfunc_0(void){ return (void*)lfunc_0; }
-int ldata_1[1] = { 64 };
+int ldata_1[4] = { 175 };
 const void *addr_ldata_1(void){ return ldata_1; } int read_ldata_1(void){ return ldata_1[0]; }
 extern int ldata_1[]; const void *l1_addr_ldata_1(void){ return ldata_1; } int l1_read_ldata_1(void){ return ldata_1[0]; }
-int real_lalias_2 = 200; extern int lalias_2 __attribute__((weak, alias("real_lalias_2")));
-void *addr_lalias_2(void){ return &real_lalias_2; } int read_lalias_2(void){ return real_lalias_2; } void write_lalias_2(int v){ real_lalias_2 = v; }
-extern int efunc_3(void); void *l1_addr_efunc_3(void){ return (void*)efunc_3; } int l1_call_efunc_3(void){ return efunc_3(); }
-const int ldata_ro_4[1] = { 52 };
-const void *addr_ldata_ro_4(void){ return ldata_ro_4; } int read_ldata_ro_4(void){ return ldata_ro_4[0]; }
-extern const int ldata_ro_4[]; const void *l1_addr_ldata_ro_4(void){ return ldata_ro_4; } int l1_read_ldata_ro_4(void){ return ldata_ro_4[0]; }
-const int ldata_ro_5[4] = { 196 };
-const void *addr_ldata_ro_5(void){ return ldata_ro_5; } int read_ldata_ro_5(void){ return ldata_ro_5[0]; }
-extern const int ldata_ro_5[]; const void *l1_addr_ldata_ro_5(void){ return ldata_ro_5; } int l1_read_ldata_ro_5(void){ return ldata_ro_5[0]; }
-int lalias_sw_6 = 146; extern __typeof(lalias_sw_6) w_lalias_sw_6 __attribute__((weak, alias("lalias_sw_6")));
-void *addr_lalias_sw_6(void){ return (void*)&w_lalias_sw_6; } int read_lalias_sw_6(void){ return w_lalias_sw_6; } void write_lalias_sw_6(int v){ w_lalias_sw_6 = v; } void *waddr_lalias_sw_6(void){ return (void*)&w_lalias_sw_6; }
-int lalias_multi_7[4]; extern __typeof(lalias_multi_7) w_lalias_multi_7 __attribute__((weak, alias("lalias_multi_7"))); extern __typeof(lalias_multi_7) t_lalias_multi_7 __attribute__((alias("lalias_multi_7")));
-void *addr_lalias_multi_7(void){ return (void*)w_lalias_multi_7; } int read_lalias_multi_7(void){ return w_lalias_multi_7[0]; } void write_lalias_multi_7(int v){ t_lalias_multi_7[0] = v; } void *waddr_lalias_multi_7(void){ return (void*)t_lalias_multi_7; }
+extern int edata_2[]; void *l1_addr_edata_2(void){ return edata_2; } int l1_read_edata_2(void){ return edata_2[0]; }
+int lfunc_3(void){ return 60; }
+void *addr_lfunc_3(void){ return (void*)lfunc_3; }
+extern int lfunc_3(void); void *l1_addr_lfunc_3(void){ return (void*)lfunc_3; }
+int lalias_sw_4 = 27; extern __typeof(lalias_sw_4) w_lalias_sw_4 __attribute__((weak, alias("lalias_sw_4")));
+void *addr_lalias_sw_4(void){ return (void*)&w_lalias_sw_4; } int read_lalias_sw_4(void){ return w_lalias_sw_4; } void write_lalias_sw_4(int v){ w_lalias_sw_4 = v; } void *waddr_lalias_sw_4(void){ return (void*)&w_lalias_sw_4; }
+int lalias_multi_5 = 4; extern __typeof(lalias_multi_5) w_lalias_multi_5 __attribute__((weak, alias("lalias_multi_5"))); extern __typeof(lalias_multi_5) t_lalias_multi_5 __attribute__((alias("lalias_multi_5")));
+void *addr_lalias_multi_5(void){ return (void*)&w_lalias_multi_5; } int read_lalias_multi_5(void){ return w_lalias_multi_5; } void write_lalias_multi_5(int v){ t_lalias_multi_5 = v; } void *waddr_lalias_multi_5(void){ return (void*)&t_lalias_multi_5; }
